@@ -35,20 +35,265 @@ def startStrings (nc nm nb : Nat) : Nat := endBp nc nm nb + pad8 (endBp nc nm nb
 def impliedLength (nc nm nb sb : Nat) : Nat := startStrings nc nm nb + sb
 
 theorem rd32_le32 (n : Nat) (h : n < u32Bound) (rest : Bytes) : rd32 (le32 n ++ rest) = some (n, rest) := by
-  sorry
+  simp only [le32, List.cons_append, List.nil_append, rd32, UInt8.toNat_ofNat']
+  simp only [u32Bound] at h
+  congr 2
+  omega
+
+theorem le32_length (n : Nat) : (le32 n).length = 4 := rfl
+
+theorem encFields_cons (v : Nat) (fs : List Nat) : encFields (v :: fs) = le32 v ++ encFields fs := by
+  simp [encFields]
+
+theorem encFields_length (fs : List Nat) : (encFields fs).length = 4 * fs.length := by
+  induction fs with
+  | nil => rfl
+  | cons v fs ih => rw [encFields_cons, List.length_append, ih, le32_length, List.length_cons]; omega
 
 theorem rdFields_encFields (fs : List Nat) (h : ∀ v ∈ fs, v < u32Bound) (rest : Bytes) :
     rdFields fs.length (encFields fs ++ rest) = some (fs, rest) := by
-  sorry
+  induction fs with
+  | nil => rfl
+  | cons v fs ih =>
+    rw [encFields_cons, List.append_assoc, List.length_cons, rdFields,
+      rd32_le32 _ (h v (List.mem_cons_self ..))]
+    simp only
+    rw [ih (fun x hx => h x (List.mem_cons_of_mem _ hx))]
+
+theorem RawClass.enc_length (c : RawClass) : c.enc.length = 28 := by
+  simp [RawClass.enc, encFields_length, RawClass.fields]
+
+theorem RawMember.enc_length (c : RawMember) : c.enc.length = 36 := by
+  simp [RawMember.enc, encFields_length, RawMember.fields]
+
+theorem zeros_length (k : Nat) : (zeros k).length = k := by simp [zeros]
+
+theorem classesEnc_length (cs : List RawClass) : (cs.map RawClass.enc).flatten.length = 28 * cs.length := by
+  induction cs with
+  | nil => rfl
+  | cons c cs ih => simp only [List.map_cons, List.flatten_cons, List.length_append, ih,
+      RawClass.enc_length, List.length_cons]; omega
+
+theorem membersEnc_length (cs : List RawMember) : (cs.map RawMember.enc).flatten.length = 36 * cs.length := by
+  induction cs with
+  | nil => rfl
+  | cons c cs ih => simp only [List.map_cons, List.flatten_cons, List.length_append, ih,
+      RawMember.enc_length, List.length_cons]; omega
+
+theorem RawClass.ofFields_fields' (c : RawClass) : RawClass.ofFields c.fields = some c := rfl
+theorem RawMember.ofFields_fields' (c : RawMember) : RawMember.ofFields c.fields = some c := rfl
+
+theorem rdClasses_enc (cs : List RawClass) (h : ∀ k ∈ cs, ∀ v ∈ k.fields, v < u32Bound) (rest : Bytes) :
+    rdClasses cs.length ((cs.map RawClass.enc).flatten ++ rest) = some (cs, rest) := by
+  induction cs with
+  | nil => rfl
+  | cons c cs ih =>
+    have h7 : c.fields.length = 7 := rfl
+    rw [List.map_cons, List.flatten_cons, List.append_assoc, List.length_cons, rdClasses,
+      RawClass.enc, ← h7, rdFields_encFields _ (h c (List.mem_cons_self ..))]
+    simp only
+    rw [ih (fun x hx => h x (List.mem_cons_of_mem _ hx)), RawClass.ofFields_fields']
+
+theorem rdMembers_enc (cs : List RawMember) (h : ∀ k ∈ cs, ∀ v ∈ k.fields, v < u32Bound) (rest : Bytes) :
+    rdMembers cs.length ((cs.map RawMember.enc).flatten ++ rest) = some (cs, rest) := by
+  induction cs with
+  | nil => rfl
+  | cons c cs ih =>
+    have h9 : c.fields.length = 9 := rfl
+    rw [List.map_cons, List.flatten_cons, List.append_assoc, List.length_cons, rdMembers,
+      RawMember.enc, ← h9, rdFields_encFields _ (h c (List.mem_cons_self ..))]
+    simp only
+    rw [ih (fun x hx => h x (List.mem_cons_of_mem _ hx)), RawMember.ofFields_fields']
+
+theorem bytes_eq (t : Tables) : t.bytes =
+    encHeader t.classes.length (t.classes.map (·.membersLen)).sum (t.classes.map (·.bpLen)).sum
+       t.strings.length ++ ((t.classes.map RawClass.enc).flatten ++
+    (zeros (pad8 (28 * t.classes.length)) ++ ((t.members.map RawMember.enc).flatten ++
+    (zeros (pad8 (36 * t.members.length)) ++ ((t.byParams.map RawMember.enc).flatten ++
+    (zeros (pad8 (36 * t.byParams.length)) ++ t.strings)))))) := by
+  have h24 : zeros (pad8 24) = [] := rfl
+  simp only [Tables.bytes, Tables.chunks, membersEnc_length, h24, List.flatten_append,
+    List.flatten_cons, List.flatten_nil, List.append_nil, List.nil_append,
+    List.cons_append]
+
+theorem encHeader_length (a b c d : Nat) : (encHeader a b c d).length = 24 := by
+  simp [encHeader, encFields_length]
+
+theorem pad8_24_add (x : Nat) : pad8 (24 + x) = pad8 x := by unfold pad8; omega
+
+theorem pad8_aligned_add (a x : Nat) (h : a % 8 = 0) : pad8 (a + x) = pad8 x := by
+  unfold pad8; omega
+
+theorem add_pad8_mod (x : Nat) : (x + pad8 x) % 8 = 0 := by unfold pad8; omega
+
+theorem startMembers_mod (nc : Nat) : startMembers nc % 8 = 0 := add_pad8_mod _
+theorem startBp_mod (nc nm : Nat) : startBp nc nm % 8 = 0 := add_pad8_mod _
+theorem startStrings_mod (nc nm nb : Nat) : startStrings nc nm nb % 8 = 0 := add_pad8_mod _
+
+theorem startMembers_eq (nc : Nat) : startMembers nc = 24 + 28 * nc + pad8 (28 * nc) := by
+  simp only [startMembers, endClasses, pad8_24_add]
+
+theorem startBp_eq (nc nm : Nat) : startBp nc nm = startMembers nc + 36 * nm + pad8 (36 * nm) := by
+  simp only [startBp, endMembers, pad8_aligned_add _ _ (startMembers_mod nc)]
+
+theorem startStrings_eq (nc nm nb : Nat) :
+    startStrings nc nm nb = startBp nc nm + 36 * nb + pad8 (36 * nb) := by
+  simp only [startStrings, endBp, pad8_aligned_add _ _ (startBp_mod nc nm)]
 
 /-- the length of a written file is the length implied by its own header (C14) -/
 theorem bytes_length (t : Tables) :
     t.bytes.length = impliedLength t.classes.length t.members.length t.byParams.length t.strings.length := by
-  sorry
+  rw [bytes_eq, impliedLength, startStrings_eq, startBp_eq, startMembers_eq]
+  simp only [List.length_append, encHeader_length, classesEnc_length, membersEnc_length,
+    zeros_length]
+  omega
+
+theorem asU32_of_lt (n : Nat) (h : n < u32Bound) : asU32 n = n := Nat.mod_eq_of_lt h
+
+theorem rdFields_encHeader (a b c d : Nat) (rest : Bytes) :
+    rdFields 6 (encHeader a b c d ++ rest) =
+      some ([magicPRGC, cacheVersion, asU32 a, asU32 b, asU32 c, asU32 d], rest) := by
+  have := rdFields_encFields [magicPRGC, cacheVersion, asU32 a, asU32 b, asU32 c, asU32 d]
+    (by
+      have hm : ∀ x, asU32 x < u32Bound := fun x => Nat.mod_lt _ (by decide)
+      intro v hv
+      simp only [List.mem_cons, List.not_mem_nil, or_false] at hv
+      rcases hv with rfl | rfl | rfl | rfl | rfl | rfl
+      · decide
+      · decide
+      all_goals exact hm _) rest
+  exact this
+
+theorem alignSkip_zeros (off k : Nat) (h : pad8 off = k) (rest : Bytes) :
+    alignSkip off (zeros k ++ rest) = some rest := by
+  subst h; simp [alignSkip, zeros]
 
 /-- decoding inverts encoding (C02 step 1, C09, C13) -/
 theorem parse_bytes (t : Tables) (h : t.Fits) : Cache.parse t.bytes = .ok (Cache.ofTables t) := by
-  sorry
+  rw [bytes_eq, h.msum, h.bsum]
+  unfold Cache.parse
+  rw [rdFields_encHeader]
+  have hsb : t.strings.length < u32Bound := by have := h.sb; simp only [u32Max, u32Bound] at *; omega
+  rw [asU32_of_lt _ h.nc, asU32_of_lt _ h.nm, asU32_of_lt _ h.nb, asU32_of_lt _ hsb]
+  have hA : alignSkip 24 = fun r => some r := by funext r; simp [alignSkip, pad8]
+  have m1 : (magicPRGC == magicFlipped) = false := by decide
+  have m2 : (magicPRGC != magicPRGC) = false := by decide
+  have m3 : (cacheVersion != cacheVersion) = false := by decide
+  have a1 := alignSkip_zeros (24 + 28 * t.classes.length) (pad8 (28 * t.classes.length))
+    (pad8_24_add _)
+  have a2 := alignSkip_zeros (24 + 28 * t.classes.length + pad8 (24 + 28 * t.classes.length)
+    + 36 * t.members.length) (pad8 (36 * t.members.length))
+    (pad8_aligned_add _ _ (startMembers_mod _))
+  have a3 := alignSkip_zeros (24 + 28 * t.classes.length + pad8 (24 + 28 * t.classes.length)
+    + 36 * t.members.length + pad8 (24 + 28 * t.classes.length + pad8 (24 + 28 * t.classes.length)
+    + 36 * t.members.length) + 36 * t.byParams.length) (pad8 (36 * t.byParams.length))
+    (pad8_aligned_add _ _ (startBp_mod _ _))
+  simp only [hA, m1, m2, m3, Bool.false_eq_true, if_false, rdClasses_enc _ h.cf,
+    rdMembers_enc _ h.mf, rdMembers_enc _ h.bf, a1, a2, a3]
+  simp only [List.length_append, classesEnc_length, membersEnc_length]
+  rw [if_neg (by omega), if_neg (by omega), if_neg (by omega), if_neg (by omega)]
+  rfl
+
+theorem rd32_none (bs : Bytes) (h : bs.length < 4) : rd32 bs = none := by
+  match bs, h with
+  | [], _ => rfl
+  | [_], _ => rfl
+  | [_, _], _ => rfl
+  | [_, _, _], _ => rfl
+  | _ :: _ :: _ :: _ :: _, h => simp at h; omega
+
+theorem rd32_ok (bs : Bytes) (h : 4 ≤ bs.length) :
+    ∃ v r, rd32 bs = some (v, r) ∧ r.length + 4 = bs.length := by
+  match bs, h with
+  | a :: b :: c :: d :: r, _ => exact ⟨_, r, rfl, by simp⟩
+  | [], h => simp at h
+  | [_], h => simp at h
+  | [_, _], h => simp at h
+  | [_, _, _], h => simp at h
+
+theorem rdFields_none (n : Nat) (bs : Bytes) (h : bs.length < 4 * n) : rdFields n bs = none := by
+  induction n generalizing bs with
+  | zero => omega
+  | succ n ih =>
+    rw [rdFields]
+    rcases Nat.lt_or_ge bs.length 4 with h4 | h4
+    · rw [rd32_none _ h4]
+    · obtain ⟨v, r, hr, hl⟩ := rd32_ok bs h4
+      rw [hr]; simp only
+      rw [ih r (by omega)]
+
+theorem rdFields_len (n : Nat) (bs r : Bytes) (vs : List Nat) (h : rdFields n bs = some (vs, r)) :
+    vs.length = n ∧ r.length + 4 * n = bs.length := by
+  induction n generalizing bs vs with
+  | zero =>
+    simp only [rdFields, Option.some.injEq, Prod.mk.injEq] at h
+    obtain ⟨rfl, rfl⟩ := h
+    simp
+  | succ n ih =>
+    rw [rdFields] at h
+    rcases Nat.lt_or_ge bs.length 4 with h4 | h4
+    · rw [rd32_none _ h4] at h; cases h
+    · obtain ⟨v, r1, hr, hl⟩ := rd32_ok bs h4
+      rw [hr] at h; simp only at h
+      split at h
+      · cases h
+      · next vs' r2 h2 =>
+        simp only [Option.some.injEq, Prod.mk.injEq] at h
+        obtain ⟨rfl, rfl⟩ := h
+        obtain ⟨a, b⟩ := ih _ _ h2
+        simp only [List.length_cons]; omega
+
+theorem rdFields_ok (n : Nat) (bs : Bytes) (h : 4 * n ≤ bs.length) :
+    ∃ vs r, rdFields n bs = some (vs, r) ∧ vs.length = n ∧ r.length + 4 * n = bs.length := by
+  induction n generalizing bs with
+  | zero => exact ⟨[], bs, rfl, rfl, by simp⟩
+  | succ n ih =>
+    obtain ⟨v, r1, hr, hl⟩ := rd32_ok bs (by omega)
+    obtain ⟨vs, r2, h2, hv, hl2⟩ := ih r1 (by omega)
+    refine ⟨v :: vs, r2, ?_, by simp [hv], by omega⟩
+    rw [rdFields, hr]; simp only
+    rw [h2]
+
+theorem RawClass.ofFields_ok (fs : List Nat) (h : fs.length = 7) : ∃ c, RawClass.ofFields fs = some c := by
+  match fs, h with
+  | [a, b, c, d, e, f, g], _ => exact ⟨_, rfl⟩
+
+theorem RawMember.ofFields_ok (fs : List Nat) (h : fs.length = 9) : ∃ c, RawMember.ofFields fs = some c := by
+  match fs, h with
+  | [a, b, c, d, e, f, g, h, i], _ => exact ⟨_, rfl⟩
+
+theorem rdClasses_ok (n : Nat) (bs : Bytes) (h : 28 * n ≤ bs.length) :
+    ∃ cs r, rdClasses n bs = some (cs, r) ∧ r.length + 28 * n = bs.length := by
+  induction n generalizing bs with
+  | zero => exact ⟨[], bs, rfl, by simp⟩
+  | succ n ih =>
+    obtain ⟨fs, r1, hr, hf, hl⟩ := rdFields_ok 7 bs (by omega)
+    obtain ⟨c, hc⟩ := RawClass.ofFields_ok fs hf
+    obtain ⟨cs, r2, h2, hl2⟩ := ih r1 (by omega)
+    refine ⟨c :: cs, r2, ?_, by omega⟩
+    rw [rdClasses, hr]; simp only
+    rw [hc, h2]
+
+theorem rdMembers_ok (n : Nat) (bs : Bytes) (h : 36 * n ≤ bs.length) :
+    ∃ cs r, rdMembers n bs = some (cs, r) ∧ r.length + 36 * n = bs.length := by
+  induction n generalizing bs with
+  | zero => exact ⟨[], bs, rfl, by simp⟩
+  | succ n ih =>
+    obtain ⟨fs, r1, hr, hf, hl⟩ := rdFields_ok 9 bs (by omega)
+    obtain ⟨c, hc⟩ := RawMember.ofFields_ok fs hf
+    obtain ⟨cs, r2, h2, hl2⟩ := ih r1 (by omega)
+    refine ⟨c :: cs, r2, ?_, by omega⟩
+    rw [rdMembers, hr]; simp only
+    rw [hc, h2]
+
+theorem alignSkip_none (off : Nat) (rest : Bytes) (h : rest.length < pad8 off) :
+    alignSkip off rest = none := by simp [alignSkip, h]
+
+theorem alignSkip_ok (off : Nat) (rest : Bytes) (h : pad8 off ≤ rest.length) :
+    ∃ r, alignSkip off rest = some r ∧ r.length + pad8 off = rest.length := by
+  refine ⟨rest.drop (pad8 off), ?_, ?_⟩
+  · simp only [alignSkip]; rw [if_neg (by omega)]
+  · simp only [List.length_drop]; omega
 
 /-- the decision sequence of `ProguardCache::parse`, in check order (C11): which error for
     which shortfall, with the exact numbers -/
@@ -67,12 +312,109 @@ theorem parse_characterised (buf : Bytes) :
         (startStrings nc nm nb ≤ buf.length → buf.length < impliedLength nc nm nb sb →
             Cache.parse buf = .error (.unexpectedStringBytes sb (buf.length - startStrings nc nm nb))) ∧
         (impliedLength nc nm nb sb ≤ buf.length → ∃ c, Cache.parse buf = .ok c))) := by
-  sorry
+  refine ⟨?_, ?_⟩
+  · intro h
+    unfold Cache.parse
+    rw [rdFields_none 6 buf (by omega)]
+  intro magic version nc nm nb sb rest h
+  have hlen := (rdFields_len _ _ _ _ h).2
+  generalize hP : Cache.parse buf = P
+  unfold Cache.parse at hP
+  rw [h] at hP
+  simp only at hP
+  refine ⟨?_, ?_, ?_, ?_⟩
+  · intro hm
+    rw [if_pos (by simp [hm])] at hP
+    exact hP.symm
+  · intro hm1 hm2
+    rw [if_neg (by simp [hm1]), if_pos (by simp [hm2])] at hP
+    exact hP.symm
+  · intro hm hv
+    subst hm
+    rw [if_neg (by decide), if_neg (by decide), if_pos (by simp [hv])] at hP
+    exact hP.symm
+  intro hm hv
+  subst hm; subst hv
+  rw [if_neg (by decide), if_neg (by decide), if_neg (by decide)] at hP
+  have hA : alignSkip 24 rest = some rest := by simp [alignSkip, pad8]
+  rw [hA] at hP
+  simp only at hP
+  simp only [impliedLength, startStrings, endBp, startBp, endMembers, startMembers, endClasses]
+  -- classes
+  rcases Nat.lt_or_ge rest.length (28 * nc) with c1 | c1
+  · rw [if_pos c1] at hP
+    refine ⟨?_, ?_, ?_, ?_, ?_, ?_⟩ <;> intros <;> first | exact hP.symm | omega
+  rw [if_neg (by omega)] at hP
+  obtain ⟨cs, r2, h2, l2⟩ := rdClasses_ok nc rest c1
+  rw [h2] at hP; simp only at hP
+  rcases Nat.lt_or_ge r2.length (pad8 (24 + 28 * nc)) with c2 | c2
+  · rw [alignSkip_none _ _ c2] at hP; simp only at hP
+    refine ⟨?_, ?_, ?_, ?_, ?_, ?_⟩ <;> intros <;> first | exact hP.symm | omega
+  obtain ⟨r3, h3, l3⟩ := alignSkip_ok _ _ c2
+  rw [h3] at hP; simp only at hP
+  -- members
+  rcases Nat.lt_or_ge r3.length (36 * nm) with c3 | c3
+  · rw [if_pos c3] at hP
+    refine ⟨?_, ?_, ?_, ?_, ?_, ?_⟩ <;> intros <;> first | exact hP.symm | omega
+  rw [if_neg (by omega)] at hP
+  obtain ⟨ms, r4, h4, l4⟩ := rdMembers_ok nm r3 c3
+  rw [h4] at hP; simp only at hP
+  rcases Nat.lt_or_ge r4.length (pad8 (24 + 28 * nc + pad8 (24 + 28 * nc) + 36 * nm)) with c4 | c4
+  · rw [alignSkip_none _ _ c4] at hP; simp only at hP
+    refine ⟨?_, ?_, ?_, ?_, ?_, ?_⟩ <;> intros <;> first | exact hP.symm | omega
+  obtain ⟨r5, h5, l5⟩ := alignSkip_ok _ _ c4
+  rw [h5] at hP; simp only at hP
+  -- by-params
+  rcases Nat.lt_or_ge r5.length (36 * nb) with c5 | c5
+  · rw [if_pos c5] at hP
+    refine ⟨?_, ?_, ?_, ?_, ?_, ?_⟩ <;> intros <;> first | exact hP.symm | omega
+  rw [if_neg (by omega)] at hP
+  obtain ⟨bps, r6, h6, l6⟩ := rdMembers_ok nb r5 c5
+  rw [h6] at hP; simp only at hP
+  rcases Nat.lt_or_ge r6.length (pad8 (24 + 28 * nc + pad8 (24 + 28 * nc) + 36 * nm +
+      pad8 (24 + 28 * nc + pad8 (24 + 28 * nc) + 36 * nm) + 36 * nb)) with c6 | c6
+  · rw [alignSkip_none _ _ c6] at hP; simp only at hP
+    refine ⟨?_, ?_, ?_, ?_, ?_, ?_⟩ <;> intros <;> first | exact hP.symm | omega
+  obtain ⟨r7, h7, l7⟩ := alignSkip_ok _ _ c6
+  rw [h7] at hP; simp only at hP
+  -- strings
+  rcases Nat.lt_or_ge r7.length sb with c7 | c7
+  · rw [if_pos c7] at hP
+    refine ⟨?_, ?_, ?_, ?_, ?_, ?_⟩ <;> intros <;> first | omega | skip
+    rw [← hP]
+    congr 2
+    omega
+  · rw [if_neg (by omega)] at hP
+    refine ⟨?_, ?_, ?_, ?_, ?_, ?_⟩ <;> intros <;> first | omega | exact ⟨_, hP.symm⟩
 
 /-- every strict prefix of a written file (what a crash during writing can leave behind) is
     rejected (C11) -/
 theorem parse_prefix_rejected (t : Tables) (h : t.Fits) (k : Nat) (hk : k < t.bytes.length) :
     ∃ e, Cache.parse (t.bytes.take k) = .error e := by
-  sorry
+  have hpl : (t.bytes.take k).length = k := by rw [List.length_take]; omega
+  obtain ⟨c0, c1⟩ := parse_characterised (t.bytes.take k)
+  rcases Nat.lt_or_ge k 24 with h24 | h24
+  · exact ⟨_, c0 (by omega)⟩
+  have hsb : t.strings.length < u32Bound := by have := h.sb; simp only [u32Max, u32Bound] at *; omega
+  rw [bytes_length] at hk
+  have hhdr : ∃ rest, rdFields 6 (t.bytes.take k) = some ([magicPRGC, cacheVersion,
+      t.classes.length, t.members.length, t.byParams.length, t.strings.length], rest) := by
+    rw [bytes_eq, h.msum, h.bsum, List.take_append, encHeader_length,
+      List.take_of_length_le (by rw [encHeader_length]; exact h24), rdFields_encHeader,
+      asU32_of_lt _ h.nc, asU32_of_lt _ h.nm, asU32_of_lt _ h.nb, asU32_of_lt _ hsb]
+    exact ⟨_, rfl⟩
+  obtain ⟨rest, hrest⟩ := hhdr
+  obtain ⟨-, -, -, c2⟩ := c1 _ _ _ _ _ _ _ hrest
+  obtain ⟨d1, d2, d3, d4, d5, -⟩ := c2 rfl rfl
+  rw [hpl] at d1 d2 d3 d4 d5
+  rcases Nat.lt_or_ge k (endClasses t.classes.length) with e1 | e1
+  · exact ⟨_, d1 e1⟩
+  rcases Nat.lt_or_ge k (endMembers t.classes.length t.members.length) with e2 | e2
+  · exact ⟨_, d2 e1 e2⟩
+  rcases Nat.lt_or_ge k (endBp t.classes.length t.members.length t.byParams.length) with e3 | e3
+  · exact ⟨_, d3 e2 e3⟩
+  rcases Nat.lt_or_ge k (startStrings t.classes.length t.members.length t.byParams.length) with e4 | e4
+  · exact ⟨_, d4 e3 e4⟩
+  exact ⟨_, d5 e4 hk⟩
 
 end PG
